@@ -79,7 +79,7 @@ int substdio_putflush(substdio *s, const char *b, size_t n)
   V_ASSERT(s == &sstoqc && b == fn.s && g_fn_kind == F_FOOP && g_fn_id == g_id, "C02: qmail-clean is asked for foop/<id> of the message just examined");
   V_ASSERT(k_file[F_MESS] == 2 && recent > g_atime + OSSIFIED, "C02: a leftover is collected only if its mess file is older than 36 hours");
   V_ASSERT(k_file[F_INFO] == 1, "C02: a leftover is collected only when no info entry exists (stat said ENOENT)");
-  V_ASSERT(k_file[F_TODO] == 1, "C02: a leftover is collected only when no todo entry exists (stat said ENOENT)");
+  V_ASSERT(k_file[F_TODO] == 1, "C02,C03: a leftover is collected only when no todo entry exists (stat said ENOENT) - a message waiting in todo/ is never swept away");
   g_asked = 1; return ND_BOOL() ? -1 : 0;
 }
 ssize_t substdio_get(substdio *s, char *b, size_t n) { *b = ND_CHAR(); return ND_BOOL() ? 1 : 0; }
@@ -414,7 +414,7 @@ void h_inject(void)
     V_ASSERT((isdbl && !g_opened_qq) || (g_closed_qq && g_close_ok && g_to_set), "C03,C14: the bounce record is removed only after the notice was successfully queued (or for the documented discard of a double bounce)");
   }
   if (g_readerr) V_ASSERT(g_failed, "C14: a read error while copying the record or the message fails the submission");
-  V_ASSERT((r == 1) == ((g_nunlink == 1 && g_unlink_ok[0]) || (g_nunlink == 0 && k_file[F_BOUNCE] == 1)), "C03: injectbounce reports success exactly if the record is gone (queued and removed) or there was none");
+  V_ASSERT((r == 1) == ((g_nunlink == 1 && g_unlink_ok[0]) || (g_nunlink == 0 && k_file[F_BOUNCE] == 1)), "C03,C02,C14: injectbounce reports success exactly if the bounce record is gone (notice queued and record removed, or discarded and removed) or there was none - info is removed only after that");
   V_COVER(isdbl && r == 1); V_COVER(!norm0 && g_to_set); V_COVER(cut && g_to_set && norm0);
 }
 #endif
